@@ -224,9 +224,12 @@ class Ctx:
             for k, f in self.funcs.items():
                 if isinstance(f, tuple) or not k.endswith("::" + meth) or "{closure" in k:
                     continue
-                sig = " ".join(t for _, t in f.args)
+                sig = " ".join(t for _, t in f.args) + " " + f.ret_type
                 if re.search(r"\b%s\b" % re.escape(ty), sig):
                     cands.append(k)
+            if len(cands) > 1:
+                first = [k for k in cands if self.funcs[k].args and re.sub(r"^&(mut )?", "", self.funcs[k].args[0][1].strip()).split("::")[-1] == ty]
+                cands = first or cands
             if len(cands) == 1:
                 return self.funcs[cands[0]]
         parts = plain.split("::")
@@ -281,6 +284,13 @@ class Exec:
             if len(cands) >= 1:
                 cands.sort(key=len, reverse=True)
                 ent = ctx.funcs[cands[0]]
+        if ent is None:
+            mp = re.search(r"::promoted\[\d+\]$", name)
+            if mp and func is not None:
+                ent = ctx.funcs.get(func.name + mp.group(0))
+                key = func.name + mp.group(0)
+                if key in ctx.const_cache:
+                    return ctx.const_cache[key]
         if ent is None:
             raise ExecError("unknown constant: " + name)
         if isinstance(ent, tuple) and ent[0] == "constval":
